@@ -3,6 +3,7 @@ package mash
 import (
 	"hash"
 	"math"
+	"slices"
 
 	"github.com/fluhus/biostuff/sequtil"
 	"github.com/fluhus/gostuff/minhash"
@@ -26,7 +27,30 @@ func (h *vpHasher) Sum(b []byte) []byte           { vpUnsupported("Sum"); return
 func (h *vpHasher) Reset()                        { h.buf = nil }
 func (h *vpHasher) Size() int                     { return 8 }
 func (h *vpHasher) BlockSize() int                { return 1 }
-func (h *vpHasher) Sum64() uint64                 { return vpHash(h.buf) }
+func (h *vpHasher) Sum64() uint64                 { return vpH(h.buf) }
+
+// vpPlain (set by VP_C17_Long): for sequences of tens of thousands of concrete
+// bases the hash is, symbolically, one fixed mixing function instead of an
+// uninterpreted one (65 000 applications of an uninterpreted function need
+// 2*10^9 consistency constraints). The properties hold for every hash
+// function, so this is one instance of them; natively the real murmur3 runs.
+var vpPlain bool
+
+func vpMix(b []byte) uint64 {
+	h := uint64(14695981039346656037)
+	for _, c := range b {
+		h ^= uint64(c)
+		h *= 1099511628211
+	}
+	return h ^ h>>29
+}
+
+func vpH(b []byte) uint64 {
+	if vpPlain && vpSymbolic() {
+		return vpMix(b)
+	}
+	return vpHash(b)
+}
 
 func vpNewHash64(seed uint32) hash.Hash64 { return &vpHasher{} }
 
@@ -302,5 +326,51 @@ func VP_C17_Range() {
 	if j == 1 {
 		vpAssert(f == 0, "distance 0 for similarity 1")
 	}
+	vpReach("end")
+}
+
+// VP_C17_Long: one sequence of tens of thousands of concrete pseudo-random
+// bases (longer than any 64 KiB chunk or 16-bit counter): the sketch is the
+// bottom-n of the hashes of all canonical k-mers, and is unchanged by
+// reverse-complementing the sequence and by adding it in two calls.
+func VP_C17_Long() {
+	vpPlain = true
+	n, k, L := vpCase("n"), vpCase("k"), vpCase("len")
+	seq := make([]byte, L)
+	x := uint32(12345)
+	for i := range seq {
+		x = x*1664525 + 1013904223
+		seq[i] = "ACGT"[x>>30]
+	}
+	var hs []uint64
+	for i := 0; i+k <= L; i++ {
+		w := seq[i : i+k]
+		r := vpRCu(w)
+		pick := w
+		for j := range w {
+			if w[j] != r[j] {
+				if r[j] < w[j] {
+					pick = r
+				}
+				break
+			}
+		}
+		hs = append(hs, vpH(pick))
+	}
+	slices.Sort(hs)
+	var want []uint64 // distinct, the n smallest, descending
+	for i, h := range hs {
+		if (i == 0 || h != hs[i-1]) && len(want) < n {
+			want = append(want, h)
+		}
+	}
+	slices.Reverse(want)
+	vpAssert(vpSameU64(Sequences(n, k, seq).View(), want), "the n smallest distinct hashes of all canonical k-mers of a long sequence, descending")
+	vpAssert(vpSameU64(Sequences(n, k, vpRCu(seq)).View(), want), "unchanged by reverse-complementing a long sequence")
+	mh := minhash.New[uint64](n)
+	Add(mh, k, seq)
+	Add(mh, k, seq[L/3:])
+	vpAssert(vpSameU64(mh.View(), want), "unchanged when the sequence and a part of it are added one after the other")
+	vpObserveInt("kmers", len(hs))
 	vpReach("end")
 }
